@@ -15,7 +15,10 @@
    satisfies the named ideal hypotheses of [ideal]; [sym] is the symbolic instance on which the
    correspondence harness evaluates the model (and which shows the hypotheses are satisfiable).
    JSON: a file is abstracted to  absent | does-not-parse | the four decoded fields ; the harness obtains
-   this description of every (corrupted) file with the package's own keyData type. *)
+   this description of every (corrupted) file with the package's own keyData type.
+   Section Histories: the operations applied one after the other to ONE path ([hstep]/[hrun]: which of
+   them write the file, and what) and signing sessions on one signer ([session_msgs]/[session_sigs]: Sign
+   is a function of the key and of the bytes the message holds at the time of the call). *)
 From Coq Require Import NArith List Bool Arith.
 Import ListNotations.
 Open Scope list_scope.
@@ -30,7 +33,7 @@ Fixpoint bytes_eqb (a b : bytes) : bool :=
   end.
 
 (* which stage refused the file (the harness maps the Go error to the same enum; EOther = unrecognised) *)
-Inductive err := EIo | EJson | ELegacyEmpty | ENonce | EDecrypt | EPriv | EPub | EMismatch | EOther.
+Inductive err := EIo | EJson | ELegacyEmpty | ENonce | EDecrypt | EPriv | EPub | EMismatch | EExists | EOther.
 
 Inductive outcome (A : Type) := Ok (a : A) | Err (e : err) | Panic.
 Arguments Ok {A} a.
@@ -201,6 +204,88 @@ End WithCrypto.
 Arguments FAbsent {c}.
 Arguments FBadJson {c}.
 Arguments FData {c} d.
+
+(* ---- histories over ONE key file path -------------------------------------------------------------
+   The operations of the package applied one after the other to the same path: what each returns and what
+   the file holds afterwards.  LoadFileSystemSigner (local.go:81-105, loadKeys :322-393) and ExportPrivateKey
+   (:110-159) only READ the file (os.Stat / os.ReadFile, no write); ImportPrivateKey (:164-239) overwrites
+   whatever is at the path, but only after the key bytes unmarshalled (:177-180, the write is at :234);
+   CreateFileSystemSigner (:39-78) refuses a path that already holds a file (:51-53, nothing written).
+   As in [save]/[import], the salts and nonces drawn from crypto/rand are inputs; the key pair drawn by
+   Create is an input too (a signer). *)
+Section Histories.
+Variable c : crypto.
+
+Inductive hop :=
+| HLoad (pass : bytes)
+| HExport (pass : bytes)
+| HImport (priv pass salt nonce : bytes)
+| HCreate (s : signer) (pass salt nonce : bytes).
+
+Inductive hres := RSigner (o : outcome signer) | RBytes (o : outcome bytes) | RDone (o : outcome unit).
+
+Definition hstep (f : file c) (op : hop) : file c * hres :=
+  match op with
+  | HLoad p => (f, RSigner (load c f p))
+  | HExport p => (f, RBytes (export c f p))
+  | HImport k p salt nonce =>
+      match import c k p salt nonce with
+      | Ok f' => (f', RDone (Ok tt))
+      | Err e => (f, RDone (Err e))
+      | Panic => (f, RDone Panic)
+      end
+  | HCreate s p salt nonce =>
+      match f with
+      | FAbsent => (save c s p salt nonce, RDone (Ok tt))
+      | _ => (f, RDone (Err EExists))            (* :51-53 "key file already exists" *)
+      end
+  end.
+
+(* file and result after each step *)
+Fixpoint hrun (f : file c) (ops : list hop) : list (file c * hres) :=
+  match ops with
+  | [] => []
+  | op :: r => let fr := hstep f op in fr :: hrun (fst fr) r
+  end.
+
+Definition hfile (f : file c) (ops : list hop) : file c := fold_left (fun f op => fst (hstep f op)) ops f.
+
+(* ---- a signing session: FileSystemSigner.Sign local.go:396-405 called again and again on one signer.
+   Sign keeps nothing between calls: what it returns is a function of the key and of the BYTES the message
+   slice holds at the time of the call, whether the caller hands a fresh slice, the same buffer again, the
+   same buffer rewritten in place, or a prefix of it. *)
+Inductive sop :=
+| SNew (m : bytes)                 (* buf = fresh slice holding m;            Sign(buf) *)
+| SPatch (off : nat) (bs : bytes)  (* copy(buf[off:], bs)  (in place);        Sign(buf) *)
+| SResign                          (*                                         Sign(buf) *)
+| SPrefix (n : nat)                (*                                         Sign(buf[:n]) *)
+| SFresh (m : bytes).              (* buf untouched;                          Sign(fresh slice holding m) *)
+
+(* Go's copy(buf[off:], bs): min(len bs, len buf - off) bytes are overwritten, the length stays *)
+Definition patch (off : nat) (bs buf : bytes) : bytes :=
+  firstn off buf ++ firstn (length buf - off) bs ++ skipn (off + length bs) buf.
+
+(* new buffer content, message handed to Sign *)
+Definition sop_step (buf : bytes) (op : sop) : bytes * bytes :=
+  match op with
+  | SNew m => (m, m)
+  | SPatch off bs => (patch off bs buf, patch off bs buf)
+  | SResign => (buf, buf)
+  | SPrefix n => (buf, firstn n buf)
+  | SFresh m => (buf, m)
+  end.
+
+(* the bytes each Sign call of the session is given *)
+Fixpoint session_msgs (buf : bytes) (ops : list sop) : list bytes :=
+  match ops with
+  | [] => []
+  | op :: r => snd (sop_step buf op) :: session_msgs (fst (sop_step buf op)) r
+  end.
+
+Definition session_sigs (s : signer) (ops : list sop) : list bytes :=
+  map (signer_sign c s) (session_msgs [] ops).
+
+End Histories.
 
 (* ---- symbolic instance ------------------------------------------------------------------------ *)
 Inductive skey := KRaw (b : bytes) | KArgon (pass salt : bytes).
